@@ -293,7 +293,28 @@ def selftest():
     codecs.selftest()
 
 
+def enum_int_grid(tier):
+    """complete grid for the integer interpretations: every name x every legal width up to 130 bits (136 for whole-byte forms) x the values at and next
+    to both limits and around zero; creation route and class rotate with the cell (all 13 routes per cell in thorough)"""
+    k = 0
+    for name in NAMES:
+        c = canon(name)
+        if c not in ('uint', 'int', 'uintbe', 'intbe', 'uintle', 'intle'):
+            continue
+        for n in (range(1, 131) if c in ('uint', 'int') else range(8, 137, 8)):
+            lo, hi = codecs.int_range(name, n)
+            for v in sorted({lo, lo + 1, hi - 1, hi, 0, max(lo, -1), min(hi, 1), lo // 2, hi // 2}):
+                if not lo <= v <= hi:
+                    continue
+                k += 1
+                for route in (CREATE_ROUTES if tier == 'thorough' else [CREATE_ROUTES[k % len(CREATE_ROUTES)]]):
+                    yield {'name': name, 'n': n, 'route': route, 'route2': CREATE_ROUTES[(k * 7 + 3) % len(CREATE_ROUTES)], 'style': k % 8, 'cls': CLASSES[k % 4], 'value': v}
+
+
 SUBCHECKS = [
+    Sub('C02.int_limits_grid', run_create, enum=enum_int_grid,
+        enum_exhaustive_note='every integer dtype name (incl. be/le/ne and one-letter aliases) x every legal width 1..130 / whole bytes 8..136 x {lo, lo+1, lo/2, -1, 0, 1, hi/2, hi-1, hi}; '
+                             'one rotating creation route per cell (quick) / all 13 (thorough)'),
     Sub('C02.create_canonical_all_routes', run_create, strategy=create_case, examples={'quick': 20000, 'thorough': 300000}, ambient=('bytealigned', 'lsb0')),
     Sub('C02.read_all_routes_and_rebuild', run_read, strategy=read_case, examples={'quick': 16000, 'thorough': 250000}, ambient=('bytealigned',)),
     Sub('C02.aliases', run_alias, strategy=alias_case, examples={'quick': 3000, 'thorough': 30000}),
